@@ -139,6 +139,8 @@ fn fit(case: &NbCase) -> Result<Result<Stats, String>, String> {
     all.extend(case.queries.iter().cloned());
     let qm = DenseMatrix::from_2d_vec(&all);
     let pri = |v: &serde_json::Value| -> Vec<f64> { serde_json::from_value(v["inner"]["distribution"]["class_priors"].clone()).unwrap_or_default() };
+    // inherent entry points, or (every other case) the generic traits of smartcore::api
+    let via_trait = (case.y.len() / 2) % 2 == 1;
     catch(|| {
         let mut s = Stats { classes: vec![], class_count: vec![], priors: vec![], theta: vec![], var: vec![], feature_count: vec![], feature_log_prob: vec![], cat_count: vec![], cat_log_prob: vec![], n_categories: vec![], pred: Err(String::new()) };
         match case.variant {
@@ -147,13 +149,13 @@ fn fit(case: &NbCase) -> Result<Result<Stats, String>, String> {
                 if let Some(pr) = &case.priors {
                     p = p.with_priors(pr.clone());
                 }
-                let m = GaussianNB::fit(&xm, &case.y, p).map_err(|e| format!("fit: {}", e))?;
+                let m: GaussianNB<f64, DenseMatrix<f64>> = if via_trait { sup_fit(&xm, &case.y, p) } else { GaussianNB::fit(&xm, &case.y, p) }.map_err(|e| format!("fit: {}", e))?;
                 s.classes = m.classes().clone();
                 s.class_count = m.class_count().clone();
                 s.priors = m.class_priors().clone();
                 s.theta = m.theta().clone();
                 s.var = m.var().clone();
-                s.pred = catch(|| m.predict(&qm).map_err(|e| e.to_string())).and_then(|r| r);
+                s.pred = catch(|| if via_trait { tr_predict(&m, &qm) } else { m.predict(&qm) }.map_err(|e| e.to_string())).and_then(|r| r);
             }
             Variant::Multinomial => {
                 // builder calls in two orders (a setter that rebuilds from the defaults would lose earlier settings)
@@ -167,13 +169,13 @@ fn fit(case: &NbCase) -> Result<Result<Stats, String>, String> {
                 if case.y.len() % 2 != 0 {
                     p = p.with_alpha(case.alpha);
                 }
-                let m = MultinomialNB::fit(&xm, &case.y, p).map_err(|e| format!("fit: {}", e))?;
+                let m: MultinomialNB<f64, DenseMatrix<f64>> = if via_trait { sup_fit(&xm, &case.y, p) } else { MultinomialNB::fit(&xm, &case.y, p) }.map_err(|e| format!("fit: {}", e))?;
                 s.classes = m.classes().clone();
                 s.class_count = m.class_count().clone();
                 s.feature_count = m.feature_count().clone();
                 s.feature_log_prob = m.feature_log_prob().clone();
                 s.priors = pri(&serde_json::to_value(&m).map_err(|e| e.to_string())?);
-                s.pred = catch(|| m.predict(&qm).map_err(|e| e.to_string())).and_then(|r| r);
+                s.pred = catch(|| if via_trait { tr_predict(&m, &qm) } else { m.predict(&qm) }.map_err(|e| e.to_string())).and_then(|r| r);
             }
             Variant::Bernoulli => {
                 let mut p = BernoulliNBParameters::default();
@@ -187,23 +189,23 @@ fn fit(case: &NbCase) -> Result<Result<Stats, String>, String> {
                     p = p.with_alpha(case.alpha);
                 }
                 p.binarize = case.binarize;
-                let m = BernoulliNB::fit(&xm, &case.y, p).map_err(|e| format!("fit: {}", e))?;
+                let m: BernoulliNB<f64, DenseMatrix<f64>> = if via_trait { sup_fit(&xm, &case.y, p) } else { BernoulliNB::fit(&xm, &case.y, p) }.map_err(|e| format!("fit: {}", e))?;
                 s.classes = m.classes().clone();
                 s.class_count = m.class_count().clone();
                 s.feature_count = m.feature_count().clone();
                 s.feature_log_prob = m.feature_log_prob().clone();
                 s.priors = pri(&serde_json::to_value(&m).map_err(|e| e.to_string())?);
-                s.pred = catch(|| m.predict(&qm).map_err(|e| e.to_string())).and_then(|r| r);
+                s.pred = catch(|| if via_trait { tr_predict(&m, &qm) } else { m.predict(&qm) }.map_err(|e| e.to_string())).and_then(|r| r);
             }
             Variant::Categorical => {
-                let m = CategoricalNB::fit(&xm, &case.y, CategoricalNBParameters::default().with_alpha(case.alpha)).map_err(|e| format!("fit: {}", e))?;
+                let m: CategoricalNB<f64, DenseMatrix<f64>> = if via_trait { sup_fit(&xm, &case.y, CategoricalNBParameters::default().with_alpha(case.alpha)) } else { CategoricalNB::fit(&xm, &case.y, CategoricalNBParameters::default().with_alpha(case.alpha)) }.map_err(|e| format!("fit: {}", e))?;
                 s.classes = m.classes().clone();
                 s.class_count = m.class_count().clone();
                 s.cat_count = m.category_count().clone();
                 s.cat_log_prob = m.feature_log_prob().clone();
                 s.n_categories = m.n_categories().clone();
                 s.priors = pri(&serde_json::to_value(&m).map_err(|e| e.to_string())?);
-                s.pred = catch(|| m.predict(&qm).map_err(|e| e.to_string())).and_then(|r| r);
+                s.pred = catch(|| if via_trait { tr_predict(&m, &qm) } else { m.predict(&qm) }.map_err(|e| e.to_string())).and_then(|r| r);
             }
         }
         Ok(s)
